@@ -5,6 +5,33 @@ here = os.path.dirname(os.path.abspath(__file__))
 sys.path.insert(0, here)
 ALL = [f"C{i:02d}" for i in range(1, 21)]
 checks, na = [], []
+
+
+def technique(P):
+    """Names the deciding method: what is discharged deductively and what is only a bounded run-time check."""
+    fns = []
+    for f in P.get("functions", []):
+        if f.get("bounded_only"):
+            continue
+        short = ".".join(f["fn"].split(".")[-2:]) if f["fn"].split(".")[-2][:1].isupper() else f["fn"].split(".")[-1]
+        if short not in fns:
+            fns.append(short)
+    bounded_fns = [f["fn"].split(".")[-1] for f in P.get("functions", []) if f.get("bounded_only")]
+    parts = []
+    if fns:
+        parts.append("contract-based deductive verification (sidecar contracts on the real functions; verification conditions generated from the "
+                     "AST of the working tree, frames included, discharged by z3 / cvc5 for all inputs) of: " + ", ".join(fns))
+    if P.get("extra") or bounded_fns or any(not f.get("rt_skip") for f in P.get("functions", [])):
+        what = []
+        if bounded_fns:
+            what.append("run-time contracts of " + ", ".join(bounded_fns))
+        if P.get("extra"):
+            what.append("reference-model harness on the real code")
+        if any(not f.get("rt_skip") and not f.get("bounded_only") for f in P.get("functions", [])):
+            what.append("native evaluation of the same contracts on sampled small inputs (encoder cross-check)")
+        parts.append("bounded stand-in, never counted as proved: " + "; ".join(what))
+    return " | ".join(parts)
+
 for pid in ALL:
     if not os.path.exists(os.path.join(here, "props", pid + ".py")):
         na.append({"property_id": pid, "reason": "check not built yet (contract-based verification planned; see DESIGN.md section 8)"})
@@ -24,7 +51,7 @@ for pid in ALL:
         "level_claimed": {"category": P.get("level", "other"), "text": P.get("level_text", P.get("explanation", "")),
                           "design_ref": f"DESIGN.md section 8 / {pid}"},
         "level_note": P.get("level_note", "trusted base and assumptions are listed in the evidence file (coverage.trusted_base)"),
-        "technique": P.get("technique", "contract-based deductive verification: VCs generated from the real source's AST against sidecar contracts, discharged by z3/cvc5"),
+        "technique": technique(P),
     })
 man = {
     "version": 1,
